@@ -318,6 +318,18 @@ func escapeSeg(s string) string {
 func genCase(t *rapid.T) *Case {
 	c := &Case{}
 	c.G.TS = gen.Pick(t, []int{rt.TSNone, rt.TSIgnore, rt.TSRedirect, rt.TSRedirect}, "globalTS")
+	if gen.Chance(t, 1, 3, "competition") {
+		// several slash-adjusted candidates of different priority for the same request
+		pats, paths := gen.Competition(t)
+		for _, p := range pats {
+			ts := gen.Pick(t, []int{0, 0, 0, rt.TSIgnore, rt.TSRedirect, rt.TSOff}, "routeTS")
+			c.Routes = append(c.Routes, rt.RouteSpec{Method: "GET", Pattern: p, TS: ts})
+		}
+		for _, p := range paths {
+			c.Reqs = append(c.Reqs, Req{Method: "GET", Target: p + gen.Pick(t, queries, "query")})
+		}
+		return c
+	}
 	n := gen.IntR(t, 1, 8, "nroutes")
 	hostW := gen.Pick(t, []int{2, 1000, 1000}, "hostweight")
 	multi := gen.IntR(t, 0, 2, "multi") == 0
